@@ -84,3 +84,9 @@ pub use self::{
     field::{Field, LimitExceeded},
     multipart::{Multipart, MultipartConfig},
 };
+
+#[cfg(kani)]
+#[allow(unused)]
+pub(crate) mod verif_memchr {
+    include!(concat!(env!("VERIF_HARNESS"), "/actix_multipart/memchr_ref.rs"));
+}
